@@ -23,7 +23,8 @@ RULE = ("requests: 1..12 disjoint singletons and a-b ranges in any order over 1.
         "platform, side, template operator, #parts, has range, port_count, policy, switch)"
         " Round 4: requests spelled with blanks; complete ranges 0-255 / 1-65535 on every run."
         " Round 5: calls relying on documented defaults; requests a,b,a-b."
-        " Rounds 6-7: the same request text on both sides.")
+        " Rounds 6-7: the same request text on both sides."
+        " Round 9: range_protocols with port-bearing tcp/udp templates (refusal allowed).")
 ASSUMPTIONS = ["combinations the API refuses by design raise ValueError and are counted as rejected_as_expected: an eq "
                "template with a range part under port_range=True, a range template with a single port, gt/lt templates, "
                "more than one port per line on NX-OS"]
